@@ -1,3 +1,3 @@
 from vlib import H
 PROPERTY='T00'; CLAIM='dev'; DISABLED=True
-HARNESSES=[H('cc','cc.cpp','h_cc',link=['coins.cpp', 'primitives/transaction.cpp', 'script/script.cpp', 'uint256.cpp', 'hash.cpp'],shadow=['nofmt','nopool'],variants=[{'STEP':4}],unwind=20,timeout=100,objbits=11,memunwind=112)]
+HARNESSES=[H('cc','cc.cpp','h_cc',link=['coins.cpp', 'primitives/transaction.cpp', 'script/script.cpp', 'uint256.cpp', 'hash.cpp'],variants=[{'STEP':4}],shadow=['nofmt','nopool'],unwind=20,timeout=100,objbits=11,memunwind=112)]
